@@ -367,7 +367,7 @@ def r4_wrapper(res, facts):
     if ctor_ok:
         r.ok('XercesDocumentWrapper constructor: thread-safe mode selects XercesLiaisonXalanDOMStringPool')
     else:
-        r.violation('XercesDocumentWrapper constructor: string pool', 'thread-safe mode no longer selects the locked string pool', k['loc'].replace('/repo/', ''))
+        r.violation('XercesDocumentWrapper constructor: string pool', 'thread-safe mode no longer selects the locked string pool', facts.K[NS + 'XercesDocumentWrapper']['loc'].replace('/repo/', ''))
     for a in facts.asts('XercesLiaisonXalanDOMStringPool::get', must=False) + facts.asts('XercesLiaisonXalanDOMStringPool::clear', must=False):
         stmts = a['body'].get('c', [])
         first = stmts[0] if stmts else None
